@@ -163,6 +163,9 @@ def run(run, rng):
         if i % 10 == 6 and case['encoding'] == 'utf-8':
             # alpha runs that begin with a capital and hold letters without case between cased ones
             case['items'] += [[w, rng.choice([1, 2])] for w in rng.sample(['Tokyo\u6771\u4eactower', 'Shalom\u05e9\u05dc\u05d5\u05ddworld1', 'Star\u0e44\u0e17\u0e22test', 'a\u4e2db'], 2)]
+        if i % 11 == 7 and not case.get('prefixcount') and len(case['items']) >= 4:
+            # a raw line holding the DOS end-of-file mark (two lists joined with `copy /b`): a control-character line like any other, in the middle of the list
+            case['items'].insert(len(case['items']) // 2, [rng.choice(['lastpw\x1a', '\x1a', 'ab\x1acd']), 1])
         if i % 9 == 4 and not case.get('prefixcount'):
             # lines the trainer has to skip, written as $HEX[..]: what they decode to holds a TAB / line separator (a password no line-oriented file can hold).
             # They are frequent, so that a terminal made from one would not be the last line of its file
